@@ -87,6 +87,17 @@ func c30Configs() []uint16 {
 	for i := 0; i < 11; i++ {
 		add(full &^ (1 << i))
 	}
+	if evid.Thorough() {
+		// all subsets of size 3 and the complements of all pairs
+		for i := 0; i < 11; i++ {
+			for j := i + 1; j < 11; j++ {
+				add(full &^ (1<<i | 1<<j))
+				for k := j + 1; k < 11; k++ {
+					add(1<<i | 1<<j | 1<<k)
+				}
+			}
+		}
+	}
 	return out
 }
 
@@ -449,7 +460,7 @@ func c30() {
 	r.Set("configurations", len(configs))
 	r.Set("attempts_per_configuration", natt)
 	r.Set("worker_deaths", p.Deaths)
-	r.Rule(fmt.Sprintf("%d server configurations (all subsets of size <= 2 of the 11 (policy, mode) pairs, the full set, every singleton's complement) x %d OpenSecureChannel attempts (11 well-formed + 7 ill-formed pairs by the reference client, 11 well-formed pairs by the gopcua channel), one real server per configuration; plus the advertised endpoints per configuration; non-trivial = an attempt against a non-empty configuration; distinct = (configuration, requested pair, client)", len(configs), natt))
+	r.Rule(fmt.Sprintf("%d server configurations (all subsets of size <= 2 (thorough: <= 3) of the 11 (policy, mode) pairs, the full set, every singleton's (thorough: and every pair's) complement) x %d OpenSecureChannel attempts (11 well-formed + 7 ill-formed pairs by the reference client, 11 well-formed pairs by the gopcua channel), one real server per configuration; plus the advertised endpoints per configuration; non-trivial = an attempt against a non-empty configuration; distinct = (configuration, requested pair, client)", len(configs), natt))
 	r.Assume("RSA-2048 keys for both sides (inside every policy's allowed range)", "a pair counts as opened when the OPN response is Good and passes the client's verification; usability (a request answered on the channel) is recorded", "policy None for discovery-only channels is not treated specially: the statement says any pair that is not configured is refused")
 	r.Finish()
 }
@@ -488,13 +499,17 @@ func c30Judge(r *evid.Run, o c30Out, wf []secPair) {
 		if a.Ill {
 			cls = "illformed:" + cls
 		}
+		cfgClass := "config=nonempty"
+		if o.Mask == 0 {
+			cfgClass = "config=empty"
+		}
 		switch {
 		case a.Opened && !en:
 			r.Outcome("opened although not enabled")
-			r.Violate("OPN/"+cls+"/opened-although-not-enabled", fmt.Sprintf("server configured with %v opened a channel for %s requested by the %s client (usable=%v)", o.Enabled, a.Pair, a.Client, a.Usable), replay)
+			r.Violate("OPN/"+cls+"/opened-although-not-enabled/"+cfgClass, fmt.Sprintf("server configured with %v opened a channel for %s requested by the %s client (usable=%v)", o.Enabled, a.Pair, a.Client, a.Usable), replay)
 		case !a.Opened && !en && a.Answered != "":
 			r.Outcome("not enabled, yet answered with an OPN response")
-			r.Violate("OPN/"+cls+"/not-refused:"+a.Answered, fmt.Sprintf("server configured with %v answered the OpenSecureChannel for %s (%s client) with an OPN response instead of refusing it: %s", o.Enabled, a.Pair, a.Client, a.Refusal), replay)
+			r.Violate("OPN/"+cls+"/not-refused:"+a.Answered+"/"+cfgClass, fmt.Sprintf("server configured with %v answered the OpenSecureChannel for %s (%s client) with an OPN response instead of refusing it: %s", o.Enabled, a.Pair, a.Client, a.Refusal), replay)
 		case !a.Opened && en:
 			r.Outcome("refused although enabled")
 			r.Violate("OPN/"+cls+"/refused-although-enabled", fmt.Sprintf("server configured with %v refused %s requested by the %s client: %s", o.Enabled, a.Pair, a.Client, a.Refusal), replay)
